@@ -1,21 +1,23 @@
-\* negative control: seeded model defect "RemoteHasParents"; TLC must report ReceiverComplete violated
+\* dangling objects in the receiver (quick + thorough): 2 commits x 9 root-tree assignments over 3 pool trees x no tag x
+\* every set of <= 2 objects of the sender that the receiver's refs do not reach, present in the receiver's store
+\* (harness/props/c05.py writes the same configuration at run time; TransferCases replays a sample as pushes and fetches)
 SPECIFICATION Spec
 CONSTANTS
   NC = 2
   NTP = 3
-  NT = 1
+  NT = 0
   MaxHeads = 2
   MaxWants = 1
   Modes = {"detailed"}
   IncTag = {FALSE}
-  Thin = {FALSE}
+  Thin = {TRUE}
   SFull = {FALSE}
   Forge = FALSE
   MaxInVain = 2
   AtomicNeg = TRUE
   PopAny = FALSE
-  MaxDangle = 0
-  Bug = "RemoteHasParents"
+  MaxDangle = 2
+  Bug = "none"
 INVARIANT TypeOK
 INVARIANT Antecedent
 INVARIANT ReceiverComplete
